@@ -169,13 +169,34 @@ GEN_IMPLS = [
     (LO + '.directive_line.fill_data:FillUntilDataLine.generate_bytes', False, False),
     (LO + '.predefined_data:PredefinedDataLine.generate_bytes', False, False),
     (LO + '.emdedded_string:EmbeddedString.generate_bytes', False, False),
-    (LO + '.data_line:DataLine.generate_bytes', False, True),
-    (LO + '.instruction_line:InstructionLine.generate_bytes', False, True),
+    (LO + '.data_line:DataLine.generate_bytes', False, False),
+    (LO + '.instruction_line:InstructionLine.generate_bytes', False, False),
 ]
 for key, base, assumed in GEN_IMPLS:
     kw = dict(GEN)
     if base:
         kw['may_raise'] = dict(GEN['may_raise'], NotImplementedError='True')
+    if key.endswith('.data_line:DataLine.generate_bytes'):
+        # emitted == reserved for data lines: width bytes per listed value (the byte values are C11's contract)
+        DW = 'data_width(self._directive)'
+        kw['may_raise'] = dict(GEN['may_raise'], SyntaxError='True')
+        kw['requires'] = list(GEN['requires']) + ['self._arg_value_list is not self._bytes',
+                                                  'self._endian == "big" or self._endian == "little"',
+                                                  'forall(lambda j: implies(0 <= j and j < len(self._arg_value_list),'
+                                                  ' union_is_int(elems(self._arg_value_list)[j])'
+                                                  ' or union_is_str(elems(self._arg_value_list)[j])))']
+        kw['cases'] = {'self._directive': ['.byte', '.2byte', '.4byte', '.8byte', '.cstr', '.asciiz']}
+        kw['locals'] = {'value_bytes': 'bytes', 'arg_val': 'int'}
+        kw['loops'] = {'0': dict(idx='i', allocates=True, modifies=['self._bytes[*]'],
+                                 inv=['i <= len(self._arg_value_list)', f'len(self._bytes) == {DW} * i',
+                                      'self._bytes is old(self._bytes)']),
+                       '0.0': dict(idx='m', modifies=['self._bytes[*]'],
+                                   inv=['m <= len(value_bytes)', f'len(self._bytes) == {DW} * i + m',
+                                        'self._bytes is old(self._bytes)'])}
+    if key.endswith('InstructionLine.generate_bytes'):
+        # (a macro whose step yields no bytes makes get_bytes return None, and extend(None) raises)
+        kw['may_raise'] = dict(GEN['may_raise'], TypeError='True')
+        kw['returns'] = 'None'      # (annotated `-> bytearray`, returns nothing)
     contract(key, name='abs:' + key.split(':')[1], covers_overrides=base, assumed=assumed,
              reason='emitted == reserved for this line class is not yet verified (regex / nested instruction parts)'
              if assumed else '', **kw)
